@@ -47,7 +47,7 @@ theorem safe_call_post (c : Call) (s : State) (hi : W.I s) (hp : c.Pre W.Den s) 
 theorem safe_optTail (tr : Transport) (payload cls raw : Nat) (owner : List UInt8)
     (k : M (Option ScanSt)) {Q : Option ScanSt → State → Prop} (hQ : ∀ s', Q none s')
     (s1 : State) (hi1 : W.I s1) (he : s1.edns.isSome)
-    (hk : ∀ s2, W.I s2 → Mono W.Den s1 s2 → Safe W k s2 Q) :
+    (hk : ∀ s2, W.I s2 → Mono W.Den s1 s2 → Safe W k s2 Q) (hcls : cls ≤ 65535) :
     Safe W (do
         if tr = Transport.udp then setLimit (max 512 (min cls payload)) else pure ()
         if owner ≠ [0] then do
@@ -80,7 +80,8 @@ theorem safe_optTail (tr : Transport) (payload cls raw : Nat) (owner : List UInt
   dsimp only
   split
   · have step1 : Safe W (setLimit (max 512 (min cls payload))) s1 (fun _ s' => s'.edns.isSome) :=
-      safe_call_post W (.setLimit (max 512 (min cls payload))) s1 hi1 trivial
+      safe_call_post W (.setLimit (max 512 (min cls payload))) s1 hi1
+        (by show max 512 (min cls payload) ≤ 65535; omega)
         (Q := fun s' => s'.edns.isSome) (by show (setLimit _ s1).2.edns.isSome; rw [setLimit_edns]; exact he)
     exact safe_bind_M W step1 (fun _ s2 hi2 hm2 he2 => tail s2 hi2 hm2 he2)
   · exact tail s1 hi1 (Mono.refl _ _) he
@@ -144,11 +145,12 @@ theorem scanAr_safe (cfg : Cfg) (tr : Transport) (now : Nat) (hnow : now < 2^48)
               simp only [scanAr, hp, a1, hopt, if_true, hseen, hse, a3, hpr]
               rfl
             | ok opt =>
-              obtain ⟨hr', _⟩ := hpo opt r'' rfl
+              obtain ⟨hr', _, _, _, hclsEq⟩ := hpo opt r'' rfl
               subst hr'
               refine safe_after W ?_ h3 (safe_optTail W tr cfg.payload opt.cls (be32 st.r.octets (p.ownerEnd + 4))
                 opt.owner _ (fun _ st' h => by cases h) s1 h2 he1
-                (fun s2 hi2 _ => recur true s2 hi2))
+                (fun s2 hi2 _ => recur true s2 hi2)
+                (by rw [hclsEq]; have := be16_lt st.r.octets (p.ownerEnd + 2); omega))
               simp only [scanAr, hp, a1, hopt, if_true, hseen, hse, a3, hpr]
               rfl
       · by_cases htsig : be16 st.r.octets p.ownerEnd = T "TSIG"
